@@ -105,11 +105,11 @@ def c04(ck, thorough):
     # one DFA row filled from a sparse NFA state through the byte classes (sparse_iter)
     mc(ck, "ACDfaRow", "c04_dfarow", {"MaxByte": 6 if thorough else 5, "NextIds": "{3, 7}"},
        ["OncePerClass", "RowCorrect", "RepInClass", "ClassesRespectTransitions"])
-    fams = ["f23", "ci", "shapes", "edge", "rand:%d:12:8" % (600 if thorough else 80)]
+    fams = ["f23", "ci", "shapes", "edge", "classes", "rand:%d:12:8" % (600 if thorough else 80)]
     if thorough:
-        fams += ["f33", "ci3", "shapesbig"]
+        fams += ["f33", "ci3", "shapesbig", "classesbig"]
     product(ck, "c04", fams, full=True, shards=4, mks=ALLK)
-    calls(ck, "c04_kinds", "kinds", scale=6 if thorough else 1, mks=ALLK, an="both", flav="all")
+    calls(ck, "c04_kinds", "kinds", scale=6 if thorough else 2, mks=ALLK, an="both", flav="all")
     calls(ck, "c04_fans", "fans", scale=2 if thorough else 1, mks=ALLK, an="no", flav="all")
 
 
